@@ -60,6 +60,7 @@ type Universe struct {
 	extraSorts map[string]bool
 	fnConsts   map[string]bool
 	specSeqs   map[string]bool
+	outStrAxioms bool
 }
 
 func newUniverse(P *Program) *Universe {
@@ -430,6 +431,7 @@ func (U *Universe) prelude() string {
 	b.WriteString("; ---- Out: content of a strings.Builder, newest fragment outermost\n")
 	b.WriteString("(declare-datatypes ((Out 0)) (((OEmpty) (OByte (OByte.prev Out) (OByte.b Int)) (OStr (OStr.prev Out) (OStr.s Str)) (ORune (ORune.prev Out) (ORune.r Int)))))\n")
 	b.WriteString("(declare-fun Out.str (Out) Str)\n")
+	U.outStrAxioms = true
 	// records in dependency order
 	b.WriteString("; ---- records\n")
 	done := map[string]bool{}
@@ -557,7 +559,11 @@ func seqAxioms(S, E string) string {
 `) + extra
 }
 
-const strExtra = `; sequence-theory facts about concatenation and slices (true of finite sequences with extensional equality)
+const strExtra = `; the text denoted by builder content
+(assert (= (Out.str OEmpty) Str.empty))
+(assert (forall ((o Out) (b Int)) (! (= (Str.len (Out.str (OByte o b))) (+ (Str.len (Out.str o)) 1)) :pattern ((Out.str (OByte o b))))))
+(assert (forall ((o Out) (s Str)) (! (= (Out.str (OStr o s)) (Str.cat (Out.str o) s)) :pattern ((Out.str (OStr o s))))))
+; sequence-theory facts about concatenation and slices (true of finite sequences with extensional equality)
 (assert (forall ((s Str) (a Int) (b Int) (c Int)) (! (=> (and (<= 0 a) (<= a b) (<= b c) (<= c (Str.len s))) (= (Str.cat (Str.slice s a b) (Str.slice s b c)) (Str.slice s a c))) :pattern ((Str.cat (Str.slice s a b) (Str.slice s b c))))))
 (assert (forall ((s Str) (a Int) (b Int) (t Str)) (! (=> (and (<= 0 a) (<= a b) (< b (Str.len s)) (= (Str.len t) 1) (= (Str.nth t 0) (Str.nth s b))) (= (Str.cat (Str.slice s a b) t) (Str.slice s a (+ b 1)))) :pattern ((Str.cat (Str.slice s a b) t)))))
 (assert (forall ((a Str)) (! (= (Str.cat a Str.empty) a) :pattern ((Str.cat a Str.empty)))))
